@@ -48,3 +48,15 @@ let () =
       else if final <> "eof" then Viol ("the stream of RDE did not end cleanly: " ^ final)
       else Pass true
     | _ -> Diff "malformed line")
+
+let () =
+  (* C20H: the context ends while the request (long extra header, several writes) is being written to a peer that does not read *)
+  register "C20H" (fun i o -> match i, o with
+    | [_; _; mode], [out; cls; at] ->
+      if out = "hang" then Viol "Dial was still writing its request to a silent peer 3 s after the context had ended"
+      else if cls = "nil" then Viol "Dial reported success against a peer that never read the request"
+      else if (mode = "ctxdl" && cls <> "deadline") || ((mode = "cancel" || mode = "done") && cls <> "canceled") then
+        Viol "the context ended while the request was being written, yet the error is not the context's error"
+      else if at <> "1" then Viol "non-nil error but the conn was not closed when Dial returned"
+      else Pass true
+    | _ -> Diff "malformed line")
